@@ -262,8 +262,8 @@ package db
 //@   loop 1 invariant reg(to) == reg(pl.Payload) || fresh(to)
 //@   free-requires [room] pl.Overflow != 0 ==> cap(pl.Payload) - len(pl.Payload) < db.header.PageSize - 4
 //@   ensures [noclobber] bytes_kept()
-//@   ensures [noinvent] err != nil ==> page_err(err) || (overflow == 0 && len(to) < pl.Length)
-//@   ensures [prefix] err == nil ==> len(to) >= pl.Length && (forall k int :: 0 <= k && k < pl.Length ==> r0[k] == to[k])
+//@   ensures-before-exit [noinvent] err != nil ==> page_err(err) || (overflow == 0 && len(to) < pl.Length)
+//@   ensures-before-exit [prefix] err == nil ==> len(to) >= pl.Length && (forall k int :: 0 <= k && k < pl.Length ==> r0[k] == to[k])
 //@   loop 1 invariant [noclobber] bytes_kept()
 //@   loop 1 invariant [room] fresh(to) || pl.Overflow == 0 || cap(to) - len(to) < db.header.PageSize - 4
 //@   loop 1 invariant [local] len(to) >= len(pl.Payload) && (forall k int :: 0 <= k && k < len(pl.Payload) ==> to[k] == old(pl.Payload[k]))
